@@ -70,6 +70,22 @@ let () =
         Buffer.add_string out (if hexmode then hex_of r else r); Buffer.add_char out '\n';
         if Buffer.length out > 60000 then flush_out ()
       done
+    | "stdin-two" ->
+      (* two-path operations: one pair per line, <hex p1> SP <hex p2>; prints the pair, TAB, NONE | hex(k) : hex(r1) : hex(r2) *)
+      let cwd = to_list Sys.argv.(2) in
+      let keys = List.map to_list (split_on ',' Sys.argv.(3)) in
+      while true do
+        let line = input_line stdin in
+        (match split_on ' ' line with
+         | [a; b] ->
+           let r = match mount_twoN cwd keys (to_list (unhex a)) (to_list (unhex b)) with
+             | Some ((k, r1), r2) ->
+               hex_of (of_list (Obj.magic k)) ^ ":" ^ hex_of (of_list (Obj.magic r1)) ^ ":" ^ hex_of (of_list (Obj.magic r2))
+             | None -> "NONE" in
+           Buffer.add_string out line; Buffer.add_char out '\t'; Buffer.add_string out r; Buffer.add_char out '\n'
+         | _ -> Buffer.add_string out "BADLINE\n");
+        if Buffer.length out > 60000 then flush_out ()
+      done
     | "hist" ->
       (* one history per line: cwd0 SP keys(comma separated) SP ops, all hex; op = C<hex> | U<hex>, separated by ';' *)
       while true do
